@@ -270,6 +270,9 @@ func (vm *Vm) runCatch(ctx context.Context, b []byte) ([]byte, error) {
 	if err != nil {
 		return b, err
 	}
+	if sig >= vm.st.FlagBitSize() {
+		return b, fmt.Errorf("signal %v out of range (flag count %v)", sig, vm.st.FlagBitSize())
+	}
 	r := vm.st.MatchFlag(sig, mode)
 	if r {
 		actualSym, _, err := applyTarget([]byte(sym), vm.st, vm.ca, ctx)
@@ -292,6 +295,9 @@ func (vm *Vm) runCroak(ctx context.Context, b []byte) ([]byte, error) {
 	sig, mode, b, err := ParseCroak(b)
 	if err != nil {
 		return b, err
+	}
+	if sig >= vm.st.FlagBitSize() {
+		return b, fmt.Errorf("signal %v out of range (flag count %v)", sig, vm.st.FlagBitSize())
 	}
 	r := vm.st.MatchFlag(sig, mode)
 	if r {
